@@ -86,13 +86,15 @@ class Mirror:
 
 
 def gen_case(rng, maxops, style=None):
-    style = style or rng.choice(['life', 'life', 'bin', 'bin', 'chunks', 'chunks', 'records', 'text', 'mixed', 'closed', 'big'])
+    style = style or rng.choice(['life', 'life', 'bin', 'bin', 'chunks', 'chunks', 'records', 'format', 'format', 'text', 'mixed', 'closed', 'big'])
     if style == 'chunks':
         return gen_chunks(rng)
     if style == 'full':
         return gen_full(rng)
     if style == 'records':
         return gen_records(rng)
+    if style == 'format':
+        return gen_format(rng)
     m = Mirror()
     ops = []
     nops = rng.randrange(3, maxops)
@@ -141,7 +143,7 @@ def gen_case(rng, maxops, style=None):
         if cl and r < wl + (.35 if style == 'closed' else .06):
             i = rng.choice(cl)
             ops.append(rng.choice(['r%d,%d' % (i, size()), 'W%d,%d,%d' % (i, rng.choice([1, 4, 0]), 7), 's%d,0,0' % i, 't%d' % i,
-                                   'e%d' % i, 'f%d' % i, 'p%d,5,ab' % i, 'q%d' % i, 'c%d' % i]))
+                                   'e%d' % i, 'f%d' % i, 'p%d,5,ab' % i, 'q%d' % i, 'c%d' % i, 'P%d,s,300,1' % i, 'P%d,d,256,3' % i]))
             continue
         if not opn:
             continue
@@ -151,7 +153,11 @@ def gen_case(rng, maxops, style=None):
         textual = style == 'text' or (style == 'mixed' and p == 2)
         if k < .30:                                      # write / print
             m.sep(rng, i, 'out', ops)
-            if textual:
+            if rng.random() < .08 and m.bytes < MAXBYTES - 20000 and p != 4:
+                t, n = long_print(rng, i, 6000)
+                ops.append(t); m.bytes += n
+                if writable(mo): m.length[p] += n
+            elif textual:
                 ops.append('p%d,%d,%s' % (i, rng.choice([0, 1, -1, 7, 42, -300, 2 ** 31, -2 ** 63, 2 ** 63 - 1, rng.randrange(-10 ** 6, 10 ** 6)]),
                                           rng.choice(WORDS)))
                 if writable(mo): m.length[p] += 40
@@ -255,6 +261,46 @@ def gen_records(rng):
     return 'records|' + ' '.join(ops)
 
 
+FMT_LENS = [0, 1, 100, 254, 255, 256, 257, 300, 1000, 4095, 5000, BUFSIZ, BUFSIZ + 1]
+
+
+def long_print(rng, i, budget=12000):
+    kind = rng.choice('sdwlm')
+    n = rng.choice(FMT_LENS) if rng.random() < .8 else rng.randrange(1, 9000)
+    n = min(n, budget // (2 if kind == 'm' else 1))
+    if kind == 'l' and n == 0: n = 256
+    return 'P%d,%s,%d,%d' % (i, kind, n, rng.randrange(0, 100000)), n * (2 if kind == 'm' else 1) + 8
+
+
+def gen_format(rng):
+    """text written with print_to whose single conversions are long (at and beyond 255/256/257 bytes, several
+    BUFSIZ): the bytes in the file are exactly the formatted text, read back after reopening or seeking back"""
+    i = rng.randrange(4)
+    p = rng.randrange(3)
+    wm = rng.choice(['w', 'w+', 'wb', 'a', 'a+'])
+    ops = ['O%d,%d,%s' % (i, p, wm) if i < 2 else 'o%d,%d,%s' % (i, p, wm)]
+    total = 0
+    for _ in range(rng.randrange(1, 6)):
+        t, n = long_print(rng, i, max(300, (MAXBYTES - 2000 - total) // 2))
+        if total + n > MAXBYTES - 2000: break
+        ops.append(t); total += n
+        r = rng.random()
+        if r < .15: ops.append('t%d' % i)
+        elif r < .25: ops.append('p%d,%d,%s' % (i, rng.randrange(-99, 99), rng.choice(WORDS))); total += 40
+        elif r < .3: ops.append('W%d,3,1' % i); total += 3
+    if '+' in wm and rng.random() < .4:
+        ops.append('s%d,0,0' % i)
+    else:
+        if rng.random() < .5: ops.append('c%d' % i)
+        ops.append('o%d,%d,%s' % (i, p, rng.choice(['r', 'r+', 'rb'])))
+    left = total + 50
+    while left > 0:
+        n = rng.choice([1, 7, 255, 256, 257, 1000, BUFSIZ, left])
+        ops.append('r%d,%d' % (i, n)); left -= n
+    ops += ['e%d' % i, 't%d' % i, 'c%d' % i]
+    return 'format|' + ' '.join(ops)
+
+
 def gen_full(rng):
     """fclose that fails (/dev/full): the stream is gone all the same."""
     i = rng.randrange(4)
@@ -305,6 +351,11 @@ def in_contract(toks, sp):
             if total > MAXBYTES: return False
         if t[0] in 'Oo' and (len(a) != 3 or (a[2] not in MODES_R + MODES_W and a[2][:1] in ('r', 'w', 'a', ''))):
             return False        # mode strings the model does not decode (glibc ignores unknown trailing letters)
+        if t[0] == 'P':
+            if len(a) != 4 or a[1] not in ('s', 'd', 'w', 'l', 'm'): return False
+            try: total += int(a[2]) * (2 if a[1] == 'm' else 1) + 8
+            except ValueError: return False
+            if total > MAXBYTES or (a[1] == 'l' and a[2] == '0'): return False       # an empty format makes no Format call at all
         if t[0] in 'Oo' and a[1] == '4' and not HAVE_FULL: return False
         if t[0] in 'Oo' and len(a) == 3 and out == 'ok':
             try: p = int(a[1])
@@ -313,12 +364,12 @@ def in_contract(toks, sp):
             if p == 4 and (a[2] not in ('w', 'a', 'wb', 'ab') or not HAVE_FULL): return False
         elif i in obj and 0 <= i < len(ob) and ob[i].startswith('o'):
             if obj[i][0] == 4:
-                if t[0] in 'rqsf': return False
+                if t[0] in 'rqsfP': return False
                 if t[0] in 'Wp':
                     full_bytes[i] += int(a[1]) if t[0] == 'W' else 40
                     if full_bytes[i] > 2000: return False
             eof = ob[i].endswith('/1')
-            if (t[0] == 'W' and a[1] != '0' and out.startswith('W')) or (t[0] == 'p' and out == 'ok'):
+            if (t[0] == 'W' and a[1] != '0' and out.startswith('W')) or (t[0] in 'pP' and out == 'ok'):
                 if last[i] == 'in': return False
                 last[i] = 'out'
             elif (t[0] == 'r' and a[1] != '0' and out.startswith('R')) or (t[0] == 'q' and out[0] in 'SF'):
@@ -420,6 +471,7 @@ def features(case, impl):
         if t[0] == 's' and out == 'ok': f.add('seek-origin-' + t.split(',')[2])
         if t[0] in 'rW' and out[0] in 'RW' and int(t.split(',')[1]) >= BUFSIZ - 1: f.add('chunk>=BUFSIZ-1')
         if t[0] in 'oO' and out == 'IOError': f.add('failed-open')
+        if t[0] == 'P' and out == 'ok' and int(t.split(',')[2]) >= 255: f.add('format-piece>=255-' + t.split(',')[1])
         prev = objs
     return f
 
@@ -449,6 +501,8 @@ CORPUS = [
     'chunks|O1,1,w+ W1,8191,5 W1,1,6 W1,8193,7 s1,0,0 r1,8192 r1,8192 r1,1 e1 r1,1 e1 t1 d1',
     'fd0|O0,0,wb W0,23,5 d0 O0,0,rb r0,23 e0 d0',       # del closes (and flushes) whatever descriptor number the stream has
     'fd012|O0,0,w O1,1,w+ o2,2,w W0,3,1 W1,3,2 p2,7,ab d0 d1 c2 o3,0,r r3,3 o3,2,r q3 c3',
+    'format|O0,0,w P0,s,255,1 P0,s,256,2 P0,s,257,3 t0 c0 o0,0,r r0,257 r0,258 r0,259 r0,1 e0 d0',      # "%s" pieces around 256 bytes
+    'format|o2,1,w+ P2,d,255,7 P2,d,256,7 P2,d,300,8 P2,w,1000,0 P2,m,5000,4 P2,l,5000,9 t2 s2,0,0 r2,256 r2,257 r2,301 r2,1001 r2,10008 r2,5000 r2,1 e2 c2',
     'life|o2,3,w t2 o2,0,r o2,0,w o2,1,w+ W2,4,3 o2,1,r r2,4 o2,3,r t2 c2',           # failing fopen leaves the File closed
     'bin|O0,0,w+ W0,10,3 s0,2,0 W0,2,0 s0,-3,2 r0,3 s0,4,1 W0,1,9 t0 s0,0,0 r0,16 e0 s0,-1,0 s0,0,7 t0 e0 d0',
 ]
@@ -492,7 +546,8 @@ def run(ctx):
         '(3 regular files in a fresh directory per case, one in a missing directory, /dev/full): sopen in every mode string incl. invalid ones, '
         'sclose, del, with{...} nesting, sread/swrite with sizes 0..5*BUFSIZ (BUFSIZ-1, BUFSIZ, BUFSIZ+1 included; data with zero bytes and '
         'all-zero data), sseek with every origin (inside, at, beyond the end, negative, invalid origin), stell, seof, sflush, '
-        'print_to/scan_from of "%ld %s\\n" records; styles: life-cycle heavy, operations on closed Files, binary, text, mixed, big chunks, '
+        'print_to/scan_from of "%ld %s\\n" records; print_to with LONG single pieces ("<%s>" of long strings, "%0<n>li|", "%<n>s|", long literal text, '
+        '"%s=%05li;%s"; lengths 0,1,100,254..257,300,1000,4095,5000,BUFSIZ,BUFSIZ+1 and random) read back byte for byte; styles: life-cycle heavy, operations on closed Files, binary, text, mixed, big chunks, '
         'write-in-one-chunking/read-in-another after reopen|seek|with|del, records printed then scanned back after reopen|seek, failing fclose; '
         'plus EVERY history up to length 3 (thorough: 4) over a 20-operation alphabet; a third of the seeded histories, the short exhaustive ones '
         'and two corpus cases run in a process that closed descriptor 0 (or 0,1,2) first, so that Files get the descriptor numbers of the standard streams. After EVERY operation the harness prints ftell/feof '
